@@ -26,6 +26,7 @@ func main() {
 	seed := flag.Int64("seed", 0, "VERIF_SEED (rotates shard order only)")
 	worker := flag.String("worker", "", "k/n (internal)")
 	resume := flag.Int64("resume", 0, "(internal)")
+	upto := flag.Int64("upto", -1, "(internal) skip cases beyond this index")
 	out := flag.String("out", "", "(internal)")
 	replay := flag.String("replay", "", "replay file")
 	aux := flag.String("aux", "", "(internal) run the check's auxiliary computation")
@@ -54,7 +55,7 @@ func main() {
 		p := strings.Split(*worker, "/")
 		k, _ := strconv.Atoi(p[0])
 		n, _ := strconv.Atoi(p[1])
-		mc.RunWorker(ch, *tier, *seed, k, n, *resume, *out)
+		mc.RunWorker(ch, *tier, *seed, k, n, *resume, *upto, *out)
 		return
 	}
 	if err := zn.SelfTest(); err != nil {
